@@ -1,6 +1,7 @@
 package main
 
 import (
+	"encoding/json"
 	"fmt"
 	"os"
 	"path/filepath"
@@ -218,6 +219,14 @@ func flowCampaign(c *vf.Ctx, prop string, cases []*flowCase, nontrivial func(*fl
 		if res.rejected != "" {
 			c.Count("programs_rejected_by_compiler", 1)
 			rejected[truncate(res.rejected, 100)]++
+			if strings.HasPrefix(res.rejected, "COMPILER PANIC") && res.prog != nil {
+				// not this property's verdict (C08's), but keep the program
+				dir := filepath.Join(vf.VerifDir, "replays", prop)
+				os.MkdirAll(dir, 0755)
+				b, _ := json.MarshalIndent(map[string]interface{}{"note": res.rejected, "case_index": fc.Index, "program_seed": fc.Seed, "mro": res.prog.Print()}, "", " ")
+				os.WriteFile(filepath.Join(dir, fmt.Sprintf("compiler-panic-%d.json", fc.Seed)), b, 0644)
+				fmt.Printf("NOTE compiler panic on generated program (case %d, seed %d): %s\n", fc.Index, fc.Seed, res.rejected)
+			}
 			return
 		}
 		c.Eval(1)
